@@ -330,12 +330,14 @@ CHECKS = {
         tiers=dict(quick=dict(checks=60, timeout=600), thorough=dict(checks=3000, timeout=3000)),
         rule="rapid sets of 1-4 recording triggers with On patterns of three components from {*, literal} and 2-6 buckets "
              "whose names overlap as prefixes/suffixes and contain regexp metacharacters (AA, XAA, AAX, A.A, AxA, AA+; OHLC "
-             "vs OHLCV), fixed and variable, x 1-6 write requests naming 1-2 buckets, rows spanning two years; oracle: the "
+             "vs OHLCV), fixed and variable, x 1-6 write requests per writer (1 writer in sync mode, or 2-4 concurrent writers with the background WAL "
+             "writer) naming 1-2 buckets, rows spanning two years; oracle: the "
              "multiset of (trigger, file path, interval index, payload) delivered == the multiset expected from the "
              "documented rule ('*' = one path component, the rest literal, pattern is a prefix of the path), indices "
              "computed independently; non-trivial = >=2 triggers with different match sets and a transaction touching "
              ">=2 files",
-        assumptions=["sequential writers (one transaction group per request); concurrent delivery is not asserted here"],
+        assumptions=["one case in three runs 2-4 concurrent writers with the background WAL writer (several requests per flushed "
+                     "transaction); schedules are sampled, the multiset oracle does not depend on them"],
         technique="property-based testing against a reference model of the documented matching rule",
     ),
     "C24": dict(
